@@ -337,6 +337,11 @@ def cases(rng, ctx):
         if i % 7 == 0:
             h, mi, s = rng.choice([(0, 0, 0), (23, 59, 59), (12, 0, 0), (0, 0, 1)])
         add({'kind': 'iso', 'y': y, 'm': m, 'd': d, 'h': h, 'mi': mi, 's': s, 'form': form})
+        if form in (1, 3) and i % 2 == 0 and 1900 < y < 9999:
+            # the same ISO text with a UTC offset (Z, +hh:mm, -hh:mm): the components read are the ones written - a time of
+            # day in its own zone - and the weekday is that of the written date (oracle only)
+            add({'kind': 'iso', 'y': y, 'm': m, 'd': d, 'h': h, 'mi': mi, 's': s, 'form': form,
+                 'off': rng.choice(['Z', '+00:00', '+05:00', '-05:00', '+09:30', '-11:00', '+14:00', '-00:30'])})
 
     # (d) serials
     ser = [61, 62, 63, 366, 367, 36526, 36585, 36586, 73050, 73109, 73110, 2958465, 2958464, 2958101, 2958100]
@@ -553,8 +558,8 @@ def iso_text(c):
         return base
     sep = 'T' if f in (1, 3) else ' '
     if f in (1, 2):
-        return base + sep + '%02d:%02d:%02d' % (c['h'], c['mi'], c['s'])
-    return base + sep + '%02d:%02d' % (c['h'], c['mi'])
+        return base + sep + '%02d:%02d:%02d' % (c['h'], c['mi'], c['s']) + c.get('off', '')
+    return base + sep + '%02d:%02d' % (c['h'], c['mi']) + c.get('off', '')
 
 
 def iso_expect(c):
@@ -575,6 +580,8 @@ def request(c):
     if k == 'hms':
         return _ev(F_HMS, {'hh': c['h'], 'mm': c['mi'], 'ss': c['s']})
     if k == 'iso':
+        if c.get('off'):
+            return None          # text with a UTC offset: oracle only
         return _ev(F_ISO, {'tx': iso_text(c)})
     if k == 'serial':
         return _ev(F_SER, {'sn': c['s']})
@@ -640,7 +647,10 @@ def _impl(c):
         return [call('HOUR', t), call('MINUTE', t), call('SECOND', t)]
     if k == 'iso':
         t = iso_text(c)
-        return [call(f, t) for f in ('YEAR', 'MONTH', 'DAY', 'HOUR', 'MINUTE', 'SECOND')]
+        res = [call(f, t) for f in ('YEAR', 'MONTH', 'DAY', 'HOUR', 'MINUTE', 'SECOND')]
+        if c.get('off'):
+            res += [call('WEEKDAY', t, ty) for ty in (1, 2, 3)]
+        return res
     if k == 'serial':
         return [call(f, c['s']) for f in ('YEAR', 'MONTH', 'DAY')]
     if k == 'pair':
@@ -713,7 +723,12 @@ def oracle(c, ans):
     if k == 'iso':
         want = iso_expect(c)
         if not all(same_int(a, w) for a, w in zip(ans, want)):
-            return 'components of %r = %r, expected %r' % (iso_text(c), ans, want)
+            return 'components of %r = %r, expected %r' % (iso_text(c), ans[:6], want)
+        if c.get('off'):
+            wd = datetime.date(c['y'], c['m'], c['d']).weekday()          # Monday = 0
+            wantw = [(wd + 1) % 7 + 1, wd + 1, wd]
+            if not all(same_int(a, w) for a, w in zip(ans[6:], wantw)):
+                return 'WEEKDAY of %r under the types 1, 2, 3 = %r, expected %r' % (iso_text(c), ans[6:], wantw)
         return None
     if k == 'serial':
         s = c['s']
